@@ -174,6 +174,9 @@ def p_abs(itp, name, args, kw, node, st):
     if n.ex is not None and not n.ex.nonneg():
         r.ex = None
     r.conj = 'I' if n.conj in ('I', 'E') else n.conj
+    if n.seg is not None:
+        from .interp_expr import relabel
+        r.seg = relabel(n.seg)
     USED.add('abs: |c^p conj(c)^q v| = |c|^(p+q) |v|  (phase exponent -> 0), result real >= 0')
     return r
 
@@ -331,7 +334,7 @@ def p_argmin(itp, name, args, kw, node, st):
 
 
 @prim('builtins.list', 'builtins.tuple', 'builtins.sorted', 'builtins.reversed', 'numpy.flipud', 'numpy.fliplr',
-      'numpy.fft.fftshift', 'numpy.flip', 'ndarray.flatten', 'ndarray.tolist', 'ndarray.squeeze', 'numpy.squeeze',
+      'numpy.flip', 'ndarray.flatten', 'ndarray.tolist', 'ndarray.squeeze', 'numpy.squeeze',
       'numpy.sort', 'ndarray.copy', 'numpy.copy', 'collections.deque', 'list.copy')
 def p_same(itp, name, args, kw, node, st):
     if not args:
@@ -355,6 +358,13 @@ def p_same(itp, name, args, kw, node, st):
             return Opaque('list')
         return mk(itp, name, v)
     r = n.copy()
+    if n.seg is not None and (n.shape is None or len(n.shape) == 1):
+        from . import segmap
+        if name in ('builtins.reversed', 'numpy.flipud', 'numpy.flip'):
+            r.seg = segmap.reverse(n.seg)
+        elif name in ('builtins.list', 'builtins.tuple', 'ndarray.copy', 'numpy.copy', 'ndarray.tolist', 'collections.deque',
+                      'ndarray.flatten', 'list.copy'):
+            r.seg = list(n.seg)
     if name in ('ndarray.flatten',):
         r.shape = (None,) if n.shape is None or any(d is None for d in n.shape) else (_prod(n.shape),)
     return r
@@ -613,6 +623,8 @@ def p_array(itp, name, args, kw, node, st):
     if c is not None:
         r.cplx = c
     r.ex = None if r.shape != () else r.ex
+    if isinstance(v, Num) and v.seg is not None:
+        r.seg = list(v.seg)
     return r
 
 
@@ -644,6 +656,8 @@ def p_transpose(itp, name, args, kw, node, st):
         return mk(itp, 'transpose', args[0])
     r = n.copy(shape=tuple(reversed(n.shape)) if n.shape is not None else None)
     itp.events.append(('transpose', node, n.shape))
+    if n.seg is not None and n.shape is not None and len(n.shape) == 1:
+        r.seg = list(n.seg)
     return r
 
 
@@ -707,6 +721,11 @@ def p_concat(itp, name, args, kw, node, st):
         r = n.copy() if r is None else num_add(itp, r, n, node, 'concat')
     r = r.copy(shape=(total,), taint=taints(*parts))
     r.ex = None
+    segs = [p.seg if isinstance(p, Num) else None for p in parts]
+    if all(sg is not None for sg in segs):
+        from . import segmap
+        r.seg = segmap.concat(segs)
+        r.shape = (segmap.length(r.seg),)
     r.zero = all((N(p).zero for p in parts))
     cs = [N(p).cplx for p in parts]
     r.cplx = None if any(c is None for c in cs) else any(cs)
@@ -886,6 +905,10 @@ def p_fft(itp, name, args, kw, node, st):
         r.shape = None
     r.taint = a.taint | taints(nlen, axis)
     itp.events.append(('fft', node, base, a.shape, nlen, ax, a))
+    if r.shape is not None and len(r.shape) == 1 and r.shape[0] is not None and base in ('fft', 'rfft'):
+        from . import segmap
+        # slot k of fft / rfft output is bin k of the n-point DFT
+        r.seg = segmap.identity('F', r.shape[0])
     if a.conj == 'E':
         r.conj = 'M'
     USED.add('fft/rfft/ifft(a, n, axis): linear; output length n (rfft: n//2+1) along axis; zero-pads when n >= len')
@@ -996,4 +1019,25 @@ def p_std(itp, name, args, kw, node, st):
     if not n.zero:
         r.deg['g'] = F(0)
         r.deg['gy'] = F(0)
+    return r
+
+
+@prim('numpy.fft.fftshift', 'numpy.fft.ifftshift')
+def p_fftshift(itp, name, args, kw, node, st):
+    """fftshift(x)[i] = x[(i - n//2) mod n]  =  x[n - n//2:] ++ x[:n - n//2] ;  ifftshift = x[n//2:] ++ x[:n//2]"""
+    n = N(args[0])
+    if n is None:
+        return mk(itp, name, args[0])
+    r = n.copy()
+    src = args[0] if isinstance(args[0], Num) else n
+    if getattr(src, 'seg', None) is not None and n.shape is not None and len(n.shape) == 1 and n.shape[0] is not None:
+        from . import segmap
+        ln = n.shape[0]
+        half = ln.scale(F(1, 2)).floor()
+        if half is not None:
+            cut = (ln - half) if name.endswith('.fftshift') else half
+            a = segmap.split_at(src.seg, cut)
+            if a is not None:
+                r.seg = segmap.normalise(a[1] + a[0])
+    USED.add('fftshift(x) = x[n-n//2:] ++ x[:n-n//2]; ifftshift(x) = x[n//2:] ++ x[:n//2]')
     return r
